@@ -322,6 +322,15 @@ def oracle_c03(c, o):
             ref = cands[0] if cands else None
             if ref is None:
                 bad.append("draw %d: returned index %d was never reached by the integrator" % (k, idx))
+        # the energies reported for the trajectory's states are those of these states: kinetic
+        # energy of the stored velocity, energy = kinetic - (logp + logdet), errors measured from
+        # the start of this trajectory (same oracles as C02 applies to every integrator step)
+        import leapfrog as _lf
+        for p_ in [init, st_] + good[:8]:
+            eb = _lf.oracle_point(c, p_, 0, init)
+            if eb:
+                bad.append("draw %d: state with index %s: %s" % (k, p_.get("idx"), eb[0]))
+                break
         if ref is not None:
             for key in ("x", "q", "g", "logp", "energy"):
                 if ref[key] != st_[key]:
